@@ -231,6 +231,8 @@ pub fn run_workload(prop: &str, sub: u64, acc: &mut Acc, ctx: &Ctx, thorough: bo
     let errno = [5, 13, 116][rng.below(3)];
     runs.push(("read+nofstat".into(), RunSpec { args: with_path(&["--no-mmap"]), plan: vec![format!("fstat_err=/w/doc.txt:{errno}")], ..RunSpec::default() }));
     runs.push(("mmap+nofstat".into(), RunSpec { args: with_path(&["--mmap"]), plan: vec![format!("fstat_err=/w/doc.txt:{errno}")], ..RunSpec::default() }));
+    // the memory map itself fails (the descriptor and its stat are fine): back to reading
+    runs.push(("mmap+mapfails".into(), RunSpec { args: with_path(&["--mmap"]), plan: vec![format!("mmap_err=/w/doc.txt:{}", [12, 19, 1][rng.below(3)])], ..RunSpec::default() }));
     // standard input is a pipe: reads cut into small pieces, one of them answered EINTR
     runs.push(("stdin+pipefaults".into(), RunSpec { args: fl.clone(), stdin: Some(w.text.clone()), plan: vec![format!("pipe_eintr={}", rng.below(5)), format!("pipe_frag={}", 1 + rng.below(500))], ..RunSpec::default() }));
     let nfrag = if thorough { 6 } else { 2 };
@@ -252,6 +254,7 @@ pub fn run_workload(prop: &str, sub: u64, acc: &mut Acc, ctx: &Ctx, thorough: bo
         acc.faults.add("read-fragmentation", got.fired("read_frag"));
         acc.faults.add("read-EINTR", got.fired("read_eintr"));
         acc.faults.add("fstat-of-open-file-fails", got.fired("fstat_err"));
+        acc.faults.add("mmap-of-open-file-fails", got.fired("mmap_err"));
         acc.faults.add("pipe-read-EINTR", got.fired("pipe_eintr"));
         acc.faults.add("pipe-read-fragmentation", got.fired("pipe_frag"));
         acc.faults.inc(&format!("route:{}", name.split('+').next().unwrap().trim_end_matches(char::is_numeric)));
